@@ -274,6 +274,16 @@ class Run:
         wall = round(time.time() - self.t0, 2)
         nun = sum(1 for o in self.obl if o['result'] == 'unsat'); nsat = sum(1 for o in self.obl if o['result'] == 'sat')
         nunk = sum(1 for o in self.obl if o['result'] == 'unknown')
+        # fall-back replay: counterexamples exist, none was reproduced by the property's own decoder -> directed conformance scenarios of the
+        # matching kind decide whether the real library misbehaves (a deviation is a reproduced violation; agreement leaves the run inconclusive)
+        kinds = getattr(self, 'fallback_kinds', None)
+        if kinds and nsat and not self.violations and not self.known_printed and any('counterexample' in x or 'violation of' in x for x in self.inconclusive):
+            try:
+                import menu
+                if menu.run(self, set(kinds), 'fall-back replay of unreproduced counterexamples'):
+                    self.inconclusive = [x for x in self.inconclusive if not ('counterexample' in x or 'violation of' in x)]
+            except Exception as e:
+                self.notes.append('fall-back menu failed: ' + repr(e)[:200])
         if nsat and not self.violations and not self.inconclusive and not self.known_printed:
             self.inconclusive.append(f'{nsat} obligation(s) have counterexamples in the encoding but none was replayed/reported')
         cov = {
